@@ -120,6 +120,28 @@ fn eval_bytes_inner(b: &[u8], env: &Env, acc: &mut Acc, case: &Case) {
                         }
                         Err(p) => acc.violate(format!("C02/to_bytes/kind=panic@{}", panic_site(&p)), case.idx, case.json(input()), p),
                     }
+                    // API twins of the same script: hex entry points, length, rebuilt from its own elements, from two chunks
+                    acc.transitions += 4;
+                    match guard(|| (Script::from_hex(&hex::encode(b)).map(|x| x.to_bytes()), script.to_hex(), script.get_script_length(), Script::from_script_bits(script.to_script_bits()).to_bytes(), Script::from_chunks(vec![b[..b.len() / 2].to_vec(), b[b.len() / 2..].to_vec()]).map(|x| x.to_bytes()))) {
+                        Ok((fh, th, gl, rebuilt, chunks)) => {
+                            if fh.as_ref().ok().map(|x| x.as_slice()) != Some(b) {
+                                acc.violate("C02/from_hex/kind=differs-from-from_bytes", case.idx, case.json(input()), format!("{:?}", fh.map(|x| hx(&x)).map_err(|e| e.to_string())));
+                            }
+                            if th != hex::encode(b) {
+                                acc.violate("C02/to_hex/kind=differs-from-to_bytes", case.idx, case.json(input()), th);
+                            }
+                            if gl != b.len() {
+                                acc.violate("C02/get_script_length/kind=wrong-length", case.idx, case.json(input()), format!("{} for a script of {} bytes", gl, b.len()));
+                            }
+                            if rebuilt != b {
+                                acc.violate("C02/from_script_bits/kind=bytes-not-preserved", case.idx, case.json(input()), format!("rebuilt from its own elements: {}", hx(&rebuilt)));
+                            }
+                            if chunks.as_ref().ok().map(|x| x.as_slice()) != Some(b) {
+                                acc.violate("C02/from_chunks/kind=differs-from-from_bytes", case.idx, case.json(input()), format!("{:?}", chunks.map(|x| hx(&x)).map_err(|e| e.to_string())));
+                            }
+                        }
+                        Err(p) => acc.violate(format!("C02/api-twins/kind=panic@{}", panic_site(&p)), case.idx, case.json(input()), p),
+                    }
                     match guard(|| flatten(&script)) {
                         Ok(Some(lt)) => {
                             if lt != toks {
@@ -373,6 +395,34 @@ pub fn spaces(tier: Tier) -> Vec<Space> {
                 _ => [t.as_slice(), x.as_slice(), t.as_slice()].concat(),
             };
             eval_bytes(&b, &e, acc, case);
+        }));
+    }
+    // content sweep: one (or two adjacent) payload byte(s) through all 256 values at every position of a 24-byte direct push,
+    // of a PUSHDATA1 push of 80 bytes (first 24 positions) and of the 20-byte hash inside a P2PKH template
+    {
+        let e = env.clone();
+        v.push(Space::new("content-sweep", 3 * 24 * 256 * 2, move |case, acc| {
+            let c = crate::engine::coords(case.idx, &[3, 24, 256, 2]);
+            let (pos, b) = (c[1] as usize, c[2] as u8);
+            let mut script: Vec<u8> = match c[0] {
+                0 => std::iter::once(24u8).chain((0..24).map(|i| 0x90 + i as u8)).chain([0xac]).collect(),
+                1 => [0x4cu8, 80].into_iter().chain((0..80).map(|i| 0x30 + i as u8)).chain([0x87]).collect(),
+                _ => [0x76u8, 0xa9, 0x14].into_iter().chain((0..20).map(|i| 0xc0 + i as u8)).chain([0x88, 0xac]).collect(),
+            };
+            let start = match c[0] {
+                0 => 1,
+                1 => 2,
+                _ => 3,
+            };
+            let plen = if c[0] == 2 { 20 } else { 24 };
+            if pos >= plen {
+                return;
+            }
+            script[start + pos] = b;
+            if c[3] == 1 {
+                script[start + (pos + 1) % plen] = b;
+            }
+            eval_bytes(&script, &e, acc, case);
         }));
     }
     // every push payload length 1..=N in its minimal form, followed by one opcode (interior lengths)
